@@ -39,7 +39,7 @@ def nth_index(text, needle, n):
     return i
 
 
-# (name, file, edit function, expected)   expected in: ok | schema | validate | unparsable
+# (name, file, edit function, expected)   expected in: ok | schema | validate | unparsable | fallback
 CASES = [
     ("unmodified copy", None, None, "ok"),
     ("kzg10::VerifierKey: reads of g and gamma_g swapped", KZG,
@@ -73,16 +73,16 @@ CASES = [
     ("sonic_pc::VerifierKey: serialized_size adds a constant", SONIC,
      lambda t: t.replace("            + self.max_degree.serialized_size(compress)\n",
                          "            + self.max_degree.serialized_size(compress)\n            + 8\n", 1),
-     "unparsable"),
+     "fallback"),
     ("kzg10::Powers: extra statement in the deserializer", KZG,
      lambda t: t.replace("        let result = Self {\n            powers_of_g: Cow::Owned(powers_of_g),",
                          "        let _skip = u8::deserialize_compressed(&mut reader)?;\n"
                          "        let result = Self {\n            powers_of_g: Cow::Owned(powers_of_g),", 1),
-     "unparsable"),
+     "fallback"),
     ("kzg10::VerifierKey: struct literal with ..Default::default()", KZG,
      lambda t: t.replace("            beta_h,\n            prepared_h,\n            prepared_beta_h,\n        };\n        if let Validate::Yes = validate {\n            result.check()?;\n        }\n\n        Ok(result)\n    }\n}\n\nimpl<E: Pairing> ToConstraintField",
                          "            beta_h,\n            ..Default::default()\n        };\n        if let Validate::Yes = validate {\n            result.check()?;\n        }\n\n        Ok(result)\n    }\n}\n\nimpl<E: Pairing> ToConstraintField", 1),
-     "unparsable"),
+     "fallback"),
     ("harmless: local renamed (let g1 = ..; Self { g: g1, .. })", KZG,
      lambda t: t.replace(G_READ, G_READ.replace("let g =", "let g1 ="), 1)
      .replace("        let result = Self {\n            g,\n            gamma_g,\n            h,\n            beta_h,\n            prepared_h,",
@@ -119,6 +119,11 @@ def run_case(name, rel, edit, expected, tmp):
         detail = r.stdout.strip()[:160]
         if os.path.exists(out):
             return "translator failed but wrote its output"
+    elif "NOTE" in r.stdout and "baseline schema emitted" in r.stdout:
+        # an impl shape T1 does not cover: the baseline schema is emitted and the tie for that type is the
+        # correspondence run (harness `layout` + round trips), see ser_schema.py
+        got = "fallback"
+        detail = r.stdout.strip()[:160]
     else:
         body = open(out).read()
 
